@@ -1,6 +1,7 @@
 //! gvh: verification harness. Calls the real GlareDB code in-process and
 //! prints canonical lines that the driver compares with the Lean model.
 mod castfmt;
+mod csvdec;
 mod rng;
 mod sortkey;
 mod sqlrun;
@@ -16,6 +17,7 @@ fn main() {
         "sql" => sqlrun::main(rest),
         "sortkey" => sortkey::main(rest),
         "cast" => castfmt::main(rest),
+        "csv" => csvdec::main(rest),
         other => {
             eprintln!("unknown component {other}");
             2
